@@ -39,6 +39,32 @@ fn check_patterns(ts: &u64, cx: &mut Cx) -> Res {
     Ok(())
 }
 
+/// Timestamps no calendar date-time type can hold (2^63 and above: the true year has twelve digits).
+/// Whatever zerv answers for them must not be a value - in particular not the date the number
+/// would have after wrapping to a negative i64 (F27: 2^64-1 printed 1969-12-31).
+fn check_beyond(ts: &u64, cx: &mut Cx) -> Res {
+    cx.nt_if(true);
+    cx.label_if(*ts == u64::MAX, "u64::MAX");
+    for p in cal::PATTERNS {
+        match no_panic(|| resolve_timestamp(p, *ts)) {
+            Ok(Err(_)) => {}
+            Ok(Ok(g)) => return fail(format!("resolve_timestamp({p:?}, {ts}) = {g:?}: the instant lies {} years after 1970, no such value is its calendar field", *ts / 31_556_952)),
+            Err(pn) => return fail(format!("resolve_timestamp({p:?}, {ts}) panicked: {pn}")),
+        }
+    }
+    // the template function, on a stdin object that carries the value
+    let doc = stdin_object(Some(*ts), None);
+    let argv: Vec<String> = ["--source", "stdin", "--output-template", "<<{{ format_timestamp(value=bumped_timestamp, format=\"%Y-%m-%d\") }}>>"].iter().map(|s| s.to_string()).collect();
+    match cli::version(&argv, Some(&doc)) {
+        cli::Run::Ok(out) => return fail(format!("format_timestamp(value={ts}) renders {out:?}: the instant lies {} years after 1970", *ts / 31_556_952)),
+        cli::Run::Panic(pn) => return fail(format!("format_timestamp(value={ts}) panicked: {pn}")),
+        cli::Run::Usage(e) => return fail(format!("harness bug: usage error {e}")),
+        cli::Run::Err(_) => {}
+    }
+    cx.note(|| format!("{ts}: every pattern and format_timestamp() refuse it"));
+    Ok(())
+}
+
 #[derive(Debug, Clone, Hash, Serialize, Deserialize)]
 struct CalverCase {
     ts: u64,
@@ -248,6 +274,12 @@ pub fn property() -> Property {
         check_patterns,
     );
     let rnd = RandomSub::<u64>::new("rand-instants", (600_000, 8_000_000), |_| instants(), check_patterns);
+    let beyond = RandomSub::<u64>::new(
+        "beyond-i64",
+        (2_000, 40_000),
+        |_| prop_oneof![2 => (1u64 << 63)..=u64::MAX, 1 => (0u64..1000).prop_map(|k| (1u64 << 63) + k), 1 => (0u64..100_000).prop_map(|k| u64::MAX - k), 1 => (0u64..(LAST_DAY + 1) * 86400).prop_map(|t| (t as i64).wrapping_neg() as u64)].boxed(),
+        check_beyond,
+    );
     let calver = RandomSub::<CalverCase>::new(
         "cli-calver",
         (20_000, 400_000),
@@ -294,7 +326,7 @@ pub fn property() -> Property {
             "timestamps 0 .. 2199-12-31T23:59:59Z (the quantifier's range)",
             "calver presets: the first three numbers of the output are year.month.day; leading zeros cannot appear in a SemVer/PEP 440 number so values are compared numerically in schema-patterns",
         ],
-        subs: vec![days.boxed(), rnd.boxed(), calver.boxed(), git_calver.boxed(), schema_ts.boxed()],
+        subs: vec![days.boxed(), rnd.boxed(), beyond.boxed(), calver.boxed(), git_calver.boxed(), schema_ts.boxed()],
         known_repro: vec![],
     }
 }
